@@ -6,6 +6,7 @@ import common
 PROPS_B = "RotoV.Props.C10B"
 PROPS_A = "RotoV.Props.C10"  # arithmetic trap theorems (another builder's file)
 PROPS_C = "RotoV.Props.C10C"  # list built-ins under contention (lock events of src/value/list.rs)
+PROPS_V = "RotoV.Props.C10V"  # list built-ins x element type: the vtable the lowerer writes vs its uses in list.rs
 
 
 def search(ctx):
@@ -71,9 +72,10 @@ def model_search(ctx):
 
 
 def run(ctx):
-    ctx.extract(["optables", "c10builtins", "c10locks"])
+    ctx.extract(["optables", "c10builtins", "c10locks", "c10vtable"])
     ctx.prove(PROPS_B, extra_modules=["RotoV.Lemmas.Builtins", "RotoV.Model.Builtins", "RotoV.Model.RustStd", "RotoV.Model.Clif"])
     ctx.prove(PROPS_C, extra_modules=["RotoV.Model.MutexPanic"], extra_targets=())  # independent of the driver
+    ctx.prove(PROPS_V, extra_modules=["RotoV.Model.VTableFill"], extra_targets=())
     if os.path.exists(os.path.join(common.LEAN, *PROPS_A.split(".")) + ".lean"):
         ctx.prove(PROPS_A, extra_modules=["RotoV.Model.Clif", "RotoV.Model.RustStd"])
     if ctx.build_harness("c10"):
